@@ -19,6 +19,7 @@ import OFV.Proofs.C01Program
 import OFV.Proofs.C01Expr
 import OFV.Proofs.C01ExprInst
 import OFV.Proofs.C01ExprMaj
+import OFV.Proofs.C01Unique
 
 namespace OFV.C01
 open OFV OFV.Spec OFV.Generated OFV.Model
@@ -525,6 +526,35 @@ example : ExprHom.Exact GQ.eqTol .qubit ActionsOk
   · refine ⟨fun h => ?_, trivial⟩
     exact absurd h (by decide +kernel)
   · intro e he; simp at he; subst he; intro f hf; simp at hf; subst hf; decide
+
+/-! ### canonical form ⇒ identical term sets -/
+
+/-- **Equal qubit (Ising) operators have identical term sets.**  Two dictionaries whose keys are pairwise
+different canonical Pauli strings (what `_simplify` produces: `simplifyQubit_canonical`, `expr_keys_closed`) on
+`n` qubits and which denote the same operator in the Spec (all matrix elements equal) assign the same
+coefficient to every string — a string stored in only one of them has coefficient 0 there.  (Linear
+independence of canonical Pauli strings by trace orthogonality, C02.) -/
+theorem canonical_form_unique_qubit (n : Nat) (A B : Op) (wA : Dict.WF A) (wB : Dict.WF B)
+    (hcA : ∀ e ∈ A, Canonical e.1 ∧ ActionsOk e.1) (hcB : ∀ e ∈ B, Canonical e.1 ∧ ActionsOk e.1)
+    (hbA : ∀ e ∈ A, ∀ f ∈ e.1, f.1 < n) (hbB : ∀ e ∈ B, ∀ f ∈ e.1, f.1 < n)
+    (hsame : ∀ s t, s < 2 ^ n → melQ A t s = melQ B t s) (k : Term) :
+    Dict.getD A k 0 = Dict.getD B k 0 := by
+  have conv : ∀ t : Term, Canonical t ∧ ActionsOk t → Proofs.C02.PauliCanonical t := by
+    intro t h
+    refine ⟨h.1.1, fun f hf => ?_⟩
+    have h0 := h.1.2 f hf
+    have h4 := h.2 f hf
+    omega
+  exact Proofs.C01U.qubit_unique n A B wA wB (fun e he => conv _ (hcA e he)) (fun e he => conv _ (hcB e he))
+    hbA hbB hsame k
+
+/-- **Equal MajoranaOperators have identical term sets**: dictionaries with pairwise different strictly
+increasing index tuples on `n` modes and equal Spec matrix elements have equal coefficients on every tuple. -/
+theorem canonical_form_unique_majorana (n : Nat) (A B : MOp) (hgA : Proofs.C02.MajGood n A)
+    (hgB : Proofs.C02.MajGood n B)
+    (hsame : ∀ s t, s < 2 ^ n → Proofs.C02.melM A t s = Proofs.C02.melM B t s) (k : MTerm) :
+    Dict.getD A k 0 = Dict.getD B k 0 :=
+  Proofs.C01U.majorana_unique n A B hgA hgB hsame k
 
 /-! ### programs: aliasing, in-place operators
 
